@@ -769,6 +769,40 @@ def source_ops(ctx):
     return pay, mut
 
 
+def fixed_id_culture_cases(ctx):
+    """(current culture name, offsets): cultures of every time-separator class; '' = invariant"""
+    try:
+        import c17
+        names = [""] + [n for n in c17.culture_names(ctx)][:: (1 if ctx.thorough else 6)]
+    except Exception:  # noqa: BLE001
+        names = [""]
+    offs = (19800, 20700, -3600, 45, -64800, 64799, 1800, -12600)
+    return [(n, offs) for n in names]
+
+
+def fixed_id_culture_case(case):
+    """the id DateTimeZone.for_offset gives a fixed zone must have the form UTC+/-hh[:mm[:ss]] and resolve, through the
+    built-in provider, to the matching fixed zone - whatever the CURRENT culture was when the zone was first made
+    (fresh interpreter per case: the fixed-zone cache is process-wide)"""
+    import json
+    import os
+    import re
+    import subprocess
+    import sys
+    name, offs = case
+    here = os.path.dirname(os.path.abspath(__file__))
+    p = subprocess.run([sys.executable, os.path.join(here, "fixedid_child.py"), name] + [str(o) for o in offs],
+                       capture_output=True, text=True, timeout=120, env=dict(os.environ, PYODA_REPO=str(REPO)))
+    if p.returncode != 0:
+        raise RuntimeError("child interpreter failed: " + p.stderr[-300:])
+    for o, (first, later, ok) in json.loads(p.stdout).items():
+        if not re.fullmatch(r"UTC|UTC[+-]\d\d(:\d\d(:\d\d)?)?", first) or ok is not True:
+            return {"key": "fixed-zone-id-depends-on-current-culture",
+                    "what": f"DateTimeZone.for_offset({o} s) first used under current culture {name!r} has id {first!r} (afterwards {later!r}); "
+                            f"provider lookup of that id: {ok}"}
+    return None
+
+
 def run(ctx):
     rng = ctx.rng
     loads = []
@@ -884,9 +918,13 @@ def run(ctx):
             if not isinstance(src, BaseException):
                 law_cases.append((f"{t[1]} edited ({MUT_KIND[o]})", src))
     ctx.check_cases("derived-maps.laws", law_cases, derived_maps_case, exhaustive=False)
+    ctx.check_cases("fixed-ids.made-by-the-library-resolve", fixed_id_culture_cases(ctx), fixed_id_culture_case)
 
 
 def replay_op(op, failure):
+    if failure.get("key") == "fixed-zone-id-depends-on-current-culture" and op.startswith("("):
+        import ast
+        return fixed_id_culture_case(ast.literal_eval(op))
     t = op.split(" ")
     if t[0] == "file.load":
         return None
